@@ -11,6 +11,8 @@ package version
 //@ # the candidate files of a key in a version (decided by FindFiles: min <= key <= max per file)
 //@ uf versionFiles(ref, uint32) []*FileMeta
 //@ func Version.FindFiles
+//@   norefine
+//@   note interface view used by snapshot.Load: the candidate list is named versionFiles(version, key); what the implementation puts into it is proved separately (version.FindFiles: exactly the files whose key range contains the key)
 //@   ensures result == versionFiles(self, key) && forall(i, 0, len(result), result[i] != nil)
 //@ end
 //@ # client contract of the loader callback: it consumes the value, it does not reach into the version's file list
@@ -207,4 +209,34 @@ package version
 //@   loop 3 invariant all(k, "table.FileNumber", has(levelUpInputMap, k) ==> (levelUpInputMap[k] != nil && levelUpInputMap[k].fileNumber == k))
 //@   loop 3 invariant forall(a, 0, len(levelUpInputs), levelUpInputs[a] != nil && visited(levelUpInputMap, levelUpInputs[a].fileNumber))
 //@   loop 3 invariant forall(a, 0, len(levelUpInputs), forall(b, 0, a, levelUpInputs[a].fileNumber != levelUpInputs[b].fileNumber))
+//@ end
+
+//@ # ---- candidate files of a key (C15): exactly the files of the version whose key range contains the key ----------
+//@ predicate levelOK(l *level) bool = l != nil && l.files != nil && all(k, "table.FileNumber", has(l.files, k) ==> l.files[k] != nil)
+//@ func level.getFiles
+//@   prop C15
+//@   arith math
+//@   requires levelOK(l)
+//@   modifies nothing
+//@   ensures[only_files_of_the_level] forall(i, 0, len(result), result[i] != nil && !all(k, "table.FileNumber", !(has(l.files, k) && l.files[k] == result[i])))
+//@   ensures[every_file_of_the_level] all(k, "table.FileNumber", has(l.files, k) ==> exists(i, 0, len(result), result[i] == l.files[k]))
+//@   loop 1 invariant forall(i, 0, len(values), values[i] != nil && !all(k, "table.FileNumber", !(has(l.files, k) && l.files[k] == values[i])))
+//@   loop 1 invariant all(k, "table.FileNumber", visited(l.files, k) ==> hint(values[len(values) - 1], exists(i, 0, len(values), values[i] == l.files[k])))
+//@ end
+//@ func version.FindFiles
+//@   prop C15
+//@   arith math
+//@   requires forall(l, 0, len(v.levels), levelOK(v.levels[l]))
+//@   modifies nothing
+//@   ensures[only_files_whose_key_range_contains_the_key] forall(i, 0, len(result), result[i] != nil && result[i].minKey <= key && key <= result[i].maxKey)
+//@   ensures[every_file_whose_key_range_contains_the_key_is_a_candidate] forall(l, 0, len(v.levels), all(k, "table.FileNumber", (has(v.levels[l].files, k) && v.levels[l].files[k].minKey <= key && key <= v.levels[l].files[k].maxKey) ==> exists(i, 0, len(result), result[i] == v.levels[l].files[k])))
+//@   loop 1 invariant forall(i, 0, len(files), files[i] != nil && files[i].minKey <= key && key <= files[i].maxKey)
+//@   loop 1 invariant forall(l, 0, rangeindex + 1, all(k, "table.FileNumber", (has(v.levels[l].files, k) && v.levels[l].files[k].minKey <= key && key <= v.levels[l].files[k].maxKey) ==> exists(i, 0, len(files), files[i] == v.levels[l].files[k])))
+//@   loop 2 invariant forall(i, 0, len(files), files[i] != nil && files[i].minKey <= key && key <= files[i].maxKey)
+//@   loop 2 invariant forall(l, 0, len(v.levels), levelOK(v.levels[l]))
+//@   loop 2 invariant forall(j, 0, len(rangeslice), rangeslice[j] != nil)
+//@   loop 2 invariant rangeindex1 + 1 >= 0 && rangeindex1 + 1 < len(v.levels) && level == v.levels[rangeindex1 + 1]
+//@   loop 2 invariant[files_of_earlier_levels_stay] forall(l, 0, len(v.levels), all(k, "table.FileNumber", hint(v.levels[l].files[k], (l < rangeindex1 + 1 && has(v.levels[l].files, k) && v.levels[l].files[k].minKey <= key && key <= v.levels[l].files[k].maxKey) ==> exists(i, 0, len(files), files[i] == v.levels[l].files[k]))))
+//@   loop 2 invariant[candidates_of_this_level_so_far] forall(j, 0, rangeindex + 1, (rangeslice[j].minKey <= key && key <= rangeslice[j].maxKey) ==> exists(i, 0, len(files), files[i] == rangeslice[j]))
+//@   loop 2 invariant[this_level_is_listed_completely] all(k, "table.FileNumber", has(level.files, k) ==> exists(j, 0, len(rangeslice), rangeslice[j] == level.files[k]))
 //@ end
